@@ -837,7 +837,7 @@ func c07Operator(c *Case, rng *Rng, r *Run) {
 		initial: map[int][]c04Ev{}, maxSteps: 60}
 	if len(ww.byHook) > 0 {
 		// a request sent during a back-off has to be answered (bash hook run) before the back-off can end
-		p.boInit = time.Duration(rng.Range(300, 450)) * time.Millisecond
+		p.boInit = time.Duration(rng.Range(600, 900)) * time.Millisecond
 		c.Note("case:operator-with-webhook-bindings")
 	}
 	byQueue := map[int][]c04Ev{}
@@ -873,8 +873,17 @@ func c07Operator(c *Case, rng *Rng, r *Run) {
 		}
 		total += n
 	}
+	// sixth wave: a third of the failing runs do not fail in the hook process: the hook ends well and a
+	// dependency of the handler (the storage of hook metrics) panics once, after the combination and
+	// the hook run; the queue handler of the world reports the panic as a failed run and the task is retried
+	var fault *c07FaultStorage
 	p.outcome = func(id, failed int) string {
 		if failed < 2 && rng.Chance(45) {
+			if fault != nil && rng.Chance(35) && !c07HeadAF(ww.w, id) {
+				fault.armed.Store(true)
+				c.Note("fault:handler-panic-after-the-hook-run(reported as a failed run, retried)")
+				return "okfault"
+			}
 			return "exit"
 		}
 		return "ok"
@@ -932,7 +941,10 @@ func c07Operator(c *Case, rng *Rng, r *Run) {
 		return evs
 	}
 	p.onExec = func(w *c04World, qn, id int, pre, now []c04Snap, run *c04Running) {
-		ww.w = w
+		if ww.w == nil {
+			ww.w = w
+			fault = c07InstallFault(w)
+		}
 		c07OnExec(w, qn, id, pre, now, run)
 	}
 	c.Desc = fmt.Sprintf("operator: %d hooks (names %q…), event layouts main=%d q1=%d, failing runs retried, %d hooks with webhook bindings", len(hooks), hooks[0].Name, len(p.initial[0]), len(p.initial[1]), len(ww.byHook))
@@ -940,6 +952,20 @@ func c07Operator(c *Case, rng *Rng, r *Run) {
 	c.Note("case:operator-events-and-retries")
 	c.Op("mode operator", "ok")
 	c04Execute(c, r, p)
+}
+
+// c07HeadAF: allowFailure of the running head task with that number (true when unknown: an allowed
+// failure is not retried).
+func c07HeadAF(w *c04World, id int) bool {
+	if w == nil {
+		return true
+	}
+	for _, run := range w.running {
+		if run != nil && w.tasks.Id(run.head.id) == id {
+			return run.head.af
+		}
+	}
+	return true
 }
 
 // c07OnExec states the property for one execution on the real operator.
@@ -958,7 +984,7 @@ func c07OnExec(w *c04World, qn, id int, pre, now []c04Snap, run *c04Running) {
 }
 
 func runC07(r *Run) {
-	r.Rule = "queue layouts of 1..10 tasks in the task's queue (+0..2 in a second queue) over 3 hooks x 3 task types x metadata-less tasks x contexts (0..3 per task, unique binding names, groups {\"\",g1,g2} interleaved) x monitor ids x allowFailure; the real combineBindingContextForHook (via verif_export_c07.go) or its exported twin is called for the head task (78%), a task in the middle, with a nil queue, with a task naming another / an absent queue, for a task that is in no queue and names none (what the admission and conversion handlers run; the queue pointer is then GetByName of its empty name, as in taskHandleHookRun; oracle untouched: nothing merged, no queue changed); stop predicate nil / allowFailure-differs / id set; in 55% of the calls 1..3 tasks are appended to the queues by a second goroutine while the combiner is parked between Iterate and Filter; 35% of the cases run a second call after the task's metadata was updated with the first result. Oracle lines (head-of-own-queue calls): returned contexts = Spec.compact of the concatenation in queue order, monitor ids, every queue of the set afterwards. Non-trivial: >= 2 tasks in the queue; distinct = distinct op-line sequences. Plus whole-operator startups (real taskHandleHookRun with generated hooks: grouped/ungrouped Synchronization tasks; oracle: an ungrouped Synchronization runs with its own contexts and the queue is left alone). Fourth wave: the hook number of a layout stands for one of 10 tables of names that look equal (letter case only, prefix of each other, trailing characters, unicode case pairs, path spellings); queued non-head tasks are probes that report every GetId/GetType/GetMetadata the combiner makes: in 15% of the head calls one task is appended by another goroutine started from inside the k-th such access (k random), so the append lands wherever the combiner reads tasks without the queue lock (and waits where it holds it). Whole-operator cases with events (40 quick / 300 thorough): 2..3 bash hooks whose file names look equal, mostly in one queue, loaded by the real loader, each with 2..3 schedule and 0..2 kubernetes bindings in one of the group layouts schedule-only / kubernetes-only / mixed / two groups / none; layouts of 2..7 tasks are built by the real schedule / kubernetes controllers and the events handler while a run is blocked, 45% of the runs fail (up to twice per task) and are retried, more tasks arrive during runs and back-offs. Oracle `merged` on EVERY execution (first attempt and retries): what the hook found in its context file = Spec.compact of the concatenation in queue order of the contexts, as the hook configuration declares them, of the head, of everything merged into it by earlier attempts and of the following run of the same hook/type; exactly that run left the queue. Sixth wave: in 60% of the event-and-retry operator cases most hooks ALSO have 1..2 webhook bindings (kubernetesCustomResourceConversion / kubernetesValidating / kubernetesMutating, 30% of them with the `group:` the other bindings use); up to 4 requests per case are answered out of band through the real routers (chi, httptest) of the operator's admission and conversion WebhookHandlers -> the event closure of initValidatingWebhookManager / conversionEventHandler -> HookManager -> taskHandler -> taskHandleHookRun -> bash, mostly for the hook whose task is at the head of the driven queue, while that head task is blocked in its run (its followers queued behind it) or sleeps in its back-off after a failed run (back-off 300..450 ms; inconclusive when the answer did not arrive before the back-off could end). Oracle `webhook` per request: the hook found exactly the context of its request in its context file (rendered with its own type, never Group) and every queue of the set holds the same tasks in the same places while that hook runs and after it has finished as before the request - tasks leave a queue only by being merged into its executed head. Thorough adds every layout of a head (3 groups) with <= 4 followers over 6 follower kinds, with and without a concurrent append."
+	r.Rule = "queue layouts of 1..10 tasks in the task's queue (+0..2 in a second queue) over 3 hooks x 3 task types x metadata-less tasks x contexts (0..3 per task, unique binding names, groups {\"\",g1,g2} interleaved) x monitor ids x allowFailure; the real combineBindingContextForHook (via verif_export_c07.go) or its exported twin is called for the head task (78%), a task in the middle, with a nil queue, with a task naming another / an absent queue, for a task that is in no queue and names none (what the admission and conversion handlers run; the queue pointer is then GetByName of its empty name, as in taskHandleHookRun; oracle untouched: nothing merged, no queue changed); stop predicate nil / allowFailure-differs / id set; in 55% of the calls 1..3 tasks are appended to the queues by a second goroutine while the combiner is parked between Iterate and Filter; 35% of the cases run a second call after the task's metadata was updated with the first result. Oracle lines (head-of-own-queue calls): returned contexts = Spec.compact of the concatenation in queue order, monitor ids, every queue of the set afterwards. Non-trivial: >= 2 tasks in the queue; distinct = distinct op-line sequences. Plus whole-operator startups (real taskHandleHookRun with generated hooks: grouped/ungrouped Synchronization tasks; oracle: an ungrouped Synchronization runs with its own contexts and the queue is left alone). Fourth wave: the hook number of a layout stands for one of 10 tables of names that look equal (letter case only, prefix of each other, trailing characters, unicode case pairs, path spellings); queued non-head tasks are probes that report every GetId/GetType/GetMetadata the combiner makes: in 15% of the head calls one task is appended by another goroutine started from inside the k-th such access (k random), so the append lands wherever the combiner reads tasks without the queue lock (and waits where it holds it). Whole-operator cases with events (40 quick / 300 thorough): 2..3 bash hooks whose file names look equal, mostly in one queue, loaded by the real loader, each with 2..3 schedule and 0..2 kubernetes bindings in one of the group layouts schedule-only / kubernetes-only / mixed / two groups / none; layouts of 2..7 tasks are built by the real schedule / kubernetes controllers and the events handler while a run is blocked, 45% of the runs fail (up to twice per task) and are retried, more tasks arrive during runs and back-offs. Oracle `merged` on EVERY execution (first attempt and retries): what the hook found in its context file = Spec.compact of the concatenation in queue order of the contexts, as the hook configuration declares them, of the head, of everything merged into it by earlier attempts and of the following run of the same hook/type; exactly that run left the queue. Sixth wave: in 60% of the event-and-retry operator cases most hooks ALSO have 1..2 webhook bindings (kubernetesCustomResourceConversion / kubernetesValidating / kubernetesMutating, 30% of them with the `group:` the other bindings use); up to 4 requests per case are answered out of band through the real routers (chi, httptest) of the operator's admission and conversion WebhookHandlers -> the event closure of initValidatingWebhookManager / conversionEventHandler -> HookManager -> taskHandler -> taskHandleHookRun -> bash, mostly for the hook whose task is at the head of the driven queue, while that head task is blocked in its run (its followers queued behind it) or sleeps in its back-off after a failed run (back-off 600..900 ms; inconclusive when the answer did not arrive before the back-off could end). Oracle `webhook` per request: the hook found exactly the context of its request in its context file (rendered with its own type, never Group) and every queue of the set holds the same tasks in the same places while that hook runs and after it has finished as before the request - tasks leave a queue only by being merged into its executed head. Thorough adds every layout of a head (3 groups) with <= 4 followers over 6 follower kinds, with and without a concurrent append."
 	// corpus
 	r.One(0, func(c *Case, _ *Rng) {
 		c.Desc = "corpus: interleaved groups, monitor ids, a foreign hook in the middle, concurrent append"
@@ -1116,6 +1142,39 @@ func runC07(r *Run) {
 		}
 		p.arrivals = func(qn, step int) []c04Ev { req(qn, "running"); return nil }
 		p.boArrivals = func(qn, step int) []c04Ev { req(qn, "backoff"); return nil }
+		c.Op("mode operator", "ok")
+		c04Execute(c, r, p)
+	})
+	r.One(6, func(c *Case, _ *Rng) {
+		c.Desc = "corpus operator: combined runs whose handler panics once after the hook process ended well (the storage of hook metrics is broken once); the panic is reported to the queue as a failed run, the retry must receive every merged context"
+		c.Nontrivial = true
+		hooks := []c04Hook{
+			{Name: "hook01", Num: 1, Queue: 0, Bindings: []c04Binding{
+				{Name: "b1", Crontab: "1 0 1 1 *"}, {Name: "b2", Crontab: "2 0 1 1 *", Group: 1}, {Name: "b3", Crontab: "3 0 1 1 *"}}},
+			{Name: "hook02", Num: 2, Queue: 0, Bindings: []c04Binding{{Name: "b4", Crontab: "4 0 1 1 *"}}},
+		}
+		p := c04Plan{hooks: hooks, boInit: 20 * time.Millisecond, boStep: 5 * time.Millisecond, maxSteps: 40,
+			initial: map[int][]c04Ev{0: {{0, 0, false}, {0, 1, false}, {0, 2, false}, {0, 0, false}, {1, 0, false}, {0, 1, false}, {0, 2, false}}}}
+		var fault *c07FaultStorage
+		p.onExec = func(w *c04World, qn, id int, pre, now []c04Snap, run *c04Running) {
+			if fault == nil {
+				fault = c07InstallFault(w)
+			}
+			c07OnExec(w, qn, id, pre, now, run)
+		}
+		gate := -1
+		p.outcome = func(id, failed int) string {
+			if gate < 0 {
+				gate = id
+				return "ok"
+			}
+			if failed < 1 && fault != nil {
+				fault.armed.Store(true)
+				c.Note("fault:handler-panic-after-the-hook-run(reported as a failed run, retried)")
+				return "okfault"
+			}
+			return "ok"
+		}
 		c.Op("mode operator", "ok")
 		c04Execute(c, r, p)
 	})
